@@ -90,7 +90,7 @@ def project(mod, x) -> Dict[str, Any]:
     import torch.nn as nn
     import torch.fx as fx
     res: Dict[str, Any] = {"ok": True, "err": "", "arch": {"dim": max(1, x.dim() - 2), "c0": int(x.shape[1]), "sp": int(x.shape[2]), "nodes": []},
-                           "W": [int(x.shape[1])], "names": [""], "padbad": [], "qpoints": [], "kinds": [""], "avg": []}
+                           "W": [int(x.shape[1])], "names": [""], "padbad": [], "qpoints": [], "kinds": [""], "avg": [], "bnof": {}}
     try:
         root, graph = _graph_of(mod)
     except Exception as e:
@@ -196,6 +196,7 @@ def project(mod, x) -> Dict[str, Any]:
                 if ti >= 1 and src.op == "call_module" and nodes[ti - 1]["op"] in ("conv", "lin") and t_of.get(src) == ti \
                         and not nodes[ti - 1]["bn"] and len(src.users) == 1:
                     nodes[ti - 1]["bn"] = True
+                    res["bnof"][ti] = name
                     t_of[n] = ti
                 else:
                     bad(f"{name}: stand-alone BatchNorm")
@@ -212,7 +213,7 @@ def project(mod, x) -> Dict[str, Any]:
                         res["avg"].append(len(nodes) + 1)
                 new(n, _node(simple[type(m)], [tin(n)]), name, cls)
                 continue
-            if cls in ("MPSIdentity", "MPSAdd", "QuantIdentity") or _is_quantizer(m):
+            if cls in ("MPSIdentity", "MPSAdd", "QuantIdentity", "IntegerClip") or _is_quantizer(m):
                 t_of[n] = tin(n)
                 res["qpoints"].append({"name": name, "t": t_of[n], "cls": cls})
                 continue
@@ -341,7 +342,8 @@ def pit_stage(model, arch, x, masks: Dict[str, Any], fold: bool, rnd: int, rng: 
     specs = _cost_specs()
     ev: Dict[str, Any] = {"k": "pit", "round": rnd, "fold": bool(fold), "conv_ok": False, "conv_err": "", "imp_diff": -1, "imp_ok": False,
                           "user_kept": False, "mode_kept": False, "fwd_ok": True, "fwd_err": "", "L": [], "cost": [], "open_cost": []}
-    evx: Dict[str, Any] = {"k": "pitx", "round": rnd, "ok": False, "err": "", "run_ok": False, "shape_ok": False, "diff": -1,
+    evx: Dict[str, Any] = {"k": "pitx", "round": rnd, "has_expect": "expect" in masks, "expect": masks.get("expect", strip_arch(arch)),
+                           "ok": False, "err": "", "run_ok": False, "shape_ok": False, "diff": -1,
                            "proj_ok": False, "proj_err": "", "obs": strip_arch(arch), "W": [], "padbad": [], "E": [], "scratch": [], "numel": -1}
     sh = shapes(arch)
     fp = _sd_fingerprint(model)
@@ -387,7 +389,6 @@ def pit_stage(model, arch, x, masks: Dict[str, Any], fold: bool, rnd: int, rng: 
     # ---- search result: the masks are written
     tm_abs: Dict[int, Dict[str, List[int]]] = {}
     if "random" in masks:
-        from .pitgen import random_masks
         masks = dict(masks)
         masks.update(random_masks(rng, arch, p_prune=float(masks["random"])))
         del masks["random"]
@@ -449,7 +450,12 @@ def pit_stage(model, arch, x, masks: Dict[str, Any], fold: bool, rnd: int, rng: 
     except Exception as e:
         evx["err"] = "export: " + _msg(e)
         return ev, evx, None, None
-    pitdrv.copy_bn_stats(mm, exp, arch)
+    try:
+        pitdrv.copy_bn_stats(mm, exp, arch)
+    except RuntimeError as e:        # a re-created BatchNorm that cannot take the sliced statistics of the one it replaces
+        evx["ok"] = False
+        evx["err"] = "re-created BatchNorm does not fit the sliced statistics of the BatchNorm it replaces: " + _msg(e)
+        return ev, evx, None, None
     exp.eval()
     try:
         with torch.no_grad():
@@ -523,6 +529,19 @@ def mps_stage(exp64, arch, x64, plan: Dict[str, Any], rng: random.Random, seed: 
         y64 = exp64(x64)
         y32 = e32(x32)
     ev["cast_e9"] = int(min(float((y32.double() - y64).abs().max()) / (1.0 + float(y64.abs().max())) * 1e9, 2e9))
+    # what MPS is handed: the float weights of every layer and the BatchNorm that follows it (float64 copies)
+    pre = project(e32, x32)
+    handed: Dict[int, Dict[str, Any]] = {}
+    if pre["ok"]:
+        hm = dict(e32.named_modules())
+        for i_, nd_ in enumerate(pre["arch"]["nodes"], start=1):
+            if nd_["op"] in ("conv", "lin"):
+                lay_ = hm[pre["names"][i_]]
+                bn_ = hm.get(pre["bnof"][i_]) if i_ in pre["bnof"] else None
+                handed[i_] = {"w": lay_.weight.detach().double().clone(), "b": None if lay_.bias is None else lay_.bias.detach().double().clone(),
+                              "bn": None if bn_ is None else {"g": bn_.weight.detach().double().clone(), "be": bn_.bias.detach().double().clone(),
+                                                              "m": bn_.running_mean.detach().double().clone(), "v": bn_.running_var.detach().double().clone(),
+                                                              "eps": float(bn_.eps)}}
     qinfo = get_default_qinfo(w_precision=tuple(cfg["pw"]), a_precision=tuple(cfg["pa"]))
     qinfo["input_default"]["search_precision"] = tuple(cfg["pin"])
     mode0 = bool(e32.training)
@@ -666,7 +685,24 @@ def mps_stage(exp64, arch, x64, plan: Dict[str, Any], rng: random.Random, seed: 
         cout = sh[n]["ch"]
         is_layer = r["kind"] in ("conv", "lin")
         th_o = mps_gen._theta_bits(lay.out_mps_quantizer)
-        rec = {"n": n, "kind": r["kind"], "want_o": want[n]["o"], "want_w": want[n]["w"],
+        # hand-over of the parameters: the float weights / bias MPS quantises are the ones it was handed, with the following
+        # BatchNorm folded in analytically (float64 reference; deviation relative to the largest reference entry, x1e9)
+        wsame, wfold = False, -1
+        if is_layer and n in handed:
+            h = handed[n]
+            wl = lay.weight.detach().double()
+            bl = None if lay.bias is None else lay.bias.detach().double()
+            wsame = bool(wl.shape == h["w"].shape and torch.equal(wl, h["w"]) and ((bl is None) == (h["b"] is None))
+                         and (bl is None or torch.equal(bl, h["b"])))
+            if h["bn"] is not None and wl.shape == h["w"].shape and bl is not None:
+                sc_ = h["bn"]["g"] / torch.sqrt(h["bn"]["v"] + h["bn"]["eps"])
+                wref = h["w"] * sc_.reshape([-1] + [1] * (h["w"].dim() - 1))
+                bref = ((h["b"] if h["b"] is not None else torch.zeros_like(h["bn"]["m"])) - h["bn"]["m"]) * sc_ + h["bn"]["be"]
+                bmag = ((h["b"] if h["b"] is not None else torch.zeros_like(h["bn"]["m"])) - h["bn"]["m"]).abs() * sc_.abs() + h["bn"]["be"].abs()
+                dev = max(float((wl - wref).abs().max()) / (float(wref.abs().max()) + 1e-12),
+                          float((bl - bref).abs().max()) / (float(bmag.max()) + 1e-12))
+                wfold = int(min(dev * 1e9, 2e9))
+        rec = {"n": n, "kind": r["kind"], "wsame": wsame, "wfold_e9": wfold, "want_o": want[n]["o"], "want_w": want[n]["w"],
                "am_o": mps_gen._argmax_bits(lay.out_mps_quantizer)[0], "qid_o": qid(lay.out_mps_quantizer),
                "am_i": NA, "am_w": [], "qid_i": 0, "qid_w": 0,
                "cand_o": [int(v) for v in lay.out_mps_quantizer.precision.tolist()], "cand_i": [], "cand_w": [],
@@ -763,7 +799,8 @@ def int_stage(fake, x32, plan: Dict[str, Any], arch, seed: int):
         y_fake = fq(x32)
     p = project(integ, x_int)
     ev["proj_ok"], ev["proj_err"], ev["obs"], ev["W"] = p["ok"], p["err"], p["arch"], p["W"]
-    ev["qp"] = sorted(q["t"] for q in p["qpoints"])
+    # float quantisers left in the integer network (an integer clip - candidate repair of F70 - is not one)
+    ev["qp"] = sorted(q["t"] for q in p["qpoints"] if q["cls"] != "IntegerClip")
     ev["avg"] = list(p["avg"])
     node_of = {nm: i for i, nm in enumerate(p["names"]) if nm}
     int_layers = {n: m for n, m in integ.named_modules() if type(m).__name__ in
@@ -964,10 +1001,14 @@ def int_stage(fake, x32, plan: Dict[str, Any], arch, seed: int):
         if y_int.shape == y_fake.shape and bool(torch.isfinite(y_int).all()):
             if not mau:
                 sx = (lastl.s_x * lastl.s_w).detach().reshape(-1)
-                y_real = y_int * sx.reshape(1, -1, *([1] * (y_int.dim() - 2))) if sx.numel() > 1 else y_int * sx
+                if sx.numel() > 1 and y_int.shape[1] != sx.numel():      # e.g. a flatten after the last layer: no per-channel view
+                    sx = None
+                y_real = None if sx is None else \
+                    (y_int * sx.reshape(1, -1, *([1] * (y_int.dim() - 2))) if sx.numel() > 1 else y_int * sx)
             else:
                 y_real = y_int
-            ev["logit_e6"] = int(min(float((y_real - y_fake).abs().max()) / (1e-3 + float(y_fake.abs().max())) * 1e6, 2e9))
+            if y_real is not None:
+                ev["logit_e6"] = int(min(float((y_real - y_fake).abs().max()) / (1e-3 + float(y_fake.abs().max())) * 1e6, 2e9))
     ev["stage"] = "done"
     return ev
 
@@ -1030,10 +1071,13 @@ def _init_worker():
 
 
 def _run_one(sc):
+    import contextlib
+    import io
     from .core import use_repo
     use_repo()
     try:
-        return run(sc)
+        with contextlib.redirect_stderr(io.StringIO()):      # torch.fx prints a traceback for every failing GraphModule call
+            return run(sc)
     except tlc.MachineryError:
         raise
     except Exception:       # a crash of the harness itself: never a verdict, always a machinery failure
@@ -1068,12 +1112,28 @@ def dump_done_states(module: str, cfg: str, run, **kw) -> Tuple[List[Dict[str, A
     base = tempfile.mktemp(prefix="pipe-dump-", dir=tlc.scratch())
     res = run.design(module, cfg, extra=["-dump", base], **kw)
     path = base + ".dump" if os.path.exists(base + ".dump") else base
-    txt = open(path).read()
+    head = re.compile(r"^State \d+:\s*$")
+    done: List[Dict[str, Any]] = []
+    n_states = 0
+    cur: List[str] = []
+
+    def flush():
+        nonlocal n_states
+        if any(l.strip() for l in cur):
+            n_states += 1
+            if any(l.startswith('/\\ phase = "done"') for l in cur):
+                done.append(tlc.parse_state("".join(cur).strip()))
+    with open(path) as fh:               # streamed: the dumps of the thorough configurations are several hundred MB
+        for line in fh:
+            if head.match(line):
+                flush()
+                cur = []
+            else:
+                cur.append(line)
+    flush()
     os.unlink(path)
-    blocks = [b for b in re.split(r"(?m)^State \d+:\s*$", txt) if b.strip()]
-    if len(blocks) != res.distinct:
-        raise tlc.MachineryError(f"dump of {module}/{cfg}: {len(blocks)} states, TLC reported {res.distinct}")
-    done = [tlc.parse_state(b.strip()) for b in blocks if '/\\ phase = "done"' in b]
+    if n_states != res.distinct:
+        raise tlc.MachineryError(f"dump of {module}/{cfg}: {n_states} states, TLC reported {res.distinct}")
     return done, res
 
 
@@ -1096,6 +1156,9 @@ def scenario_from_state(st: Dict[str, Any], seed: int) -> Dict[str, Any]:
         f = {str(k): sorted(int(c) for c in v) for k, v in _fun_items(r["f"])}
         tm = {str(k): {"cut": int(v["cut"]), "lev": int(v["lev"])} for k, v in _fun_items(r["tm"])}
         rounds.append({"f": f, "tm": tm})
+    for j, xa in enumerate(plan.get("x", [])):
+        if j < len(rounds):
+            rounds[j]["expect"] = strip_arch(arch_from_tla(xa))
     sc: Dict[str, Any] = {"arch": arch, "seed": seed, "fold": bool(plan["fold"]), "r1": rounds[0] if rounds else None,
                           "r2": rounds[1] if len(rounds) > 1 else None, "mps": None, "int": None, "src": "mc"}
     if plan["mps"]:
@@ -1153,38 +1216,172 @@ ALL15 = [[2], [4], [8], [2, 4], [4, 2], [2, 8], [8, 2], [4, 8], [8, 4],
          [2, 4, 8], [2, 8, 4], [4, 2, 8], [4, 8, 2], [8, 2, 4], [8, 4, 2]]
 
 
+V_ABS = [0, 3, 6, 10, 100000000]        # abstract magnitudes of mask parameters (units of 0.1; the last one = 1e30)
+
+
+def random_masks(rng: random.Random, arch, *, p_prune: float = 0.4) -> Dict[str, Any]:
+    """Random alive sets per searchable layer and random abstract time masks per causal stride-1 Conv1d."""
+    sh = shapes(arch)
+    alive, tm = {}, {}
+    for i, nd in enumerate(arch["nodes"], start=1):
+        if nd["op"] not in ("conv", "lin") or nd["excl"] or nd["reuse"]:
+            continue
+        w = sh[i]["ch"]
+        alive[str(i)] = sorted({c for c in range(1, w + 1) if rng.random() > p_prune} | {w})
+        if arch["dim"] == 1 and nd["op"] == "conv" and nd["s"] == 1 and nd["causal"]:
+            K = nd["k"]
+            G = max((K - 1).bit_length(), 1)
+            mode = rng.random()
+            if mode < 0.5:      # suffix x comb pattern
+                cut, lev = rng.randrange(K), rng.randrange(G)
+                tm[str(i)] = {"b": [10 if j >= cut else 0 for j in range(K)], "g": [10 if j >= lev else 0 for j in range(G)]}
+            elif mode < 0.8:    # arbitrary abstract values
+                tm[str(i)] = {"b": [rng.choice(V_ABS) for _ in range(K)], "g": [rng.choice(V_ABS) for _ in range(G)]}
+    return {"alive": alive, "tm": tm}
+
+
+def random_pipe_arch(rng: random.Random, dim: int, max_nodes: int, extras: bool) -> Dict[str, Any]:
+    """Seeded random architecture of the PIPELINE grammar (own generator: the stage checks keep extending theirs):
+    padded convolutions (1-D: causal left padding, any stride, dilation 1..3, kernels 1..5, or 'same' zero padding with
+    stride 1; 2-D: odd kernels, padding k//2, dilation 1), depthwise convolutions, BatchNorm after conv / linear, bias
+    on/off, linear layers, relu, 2-pooling (avg / max), flatten, residual add; with `extras` also channel concatenation and
+    the other element-wise ops of plinio's propagating list (tanh, silu, dropout, identity, sigmoid)."""
+    c0 = rng.choice([1, 2, 3])
+    sp = rng.choice([4, 6]) if dim == 2 else rng.choice([6, 8, 12])
+    nodes: List[Dict[str, Any]] = []
+    target = rng.randint(3, max_nodes)
+    for _ in range(120):
+        if len(nodes) >= target:
+            break
+        a = norm_arch({"dim": dim, "c0": c0, "sp": sp, "nodes": nodes})
+        sh = shapes(a)
+        T = list(range(len(sh)))
+        nf = [t for t in T if not sh[t]["flat"]]
+        fl = [t for t in T if sh[t]["flat"]]
+        used = {p for nd in nodes for p in nd["ins"]}
+        fresh = [t for t in T if t not in used]
+        pick = lambda cand: rng.choice([t for t in cand if t in fresh] or cand)
+        kind = rng.choices(["conv", "dw", "lin", "relu", "pool", "flat", "add", "cat"],
+                           weights=[6, 2, 4 if fl else 0, 3, 1, 1.2 if len(nf) > 1 else 0, 3, 1.5 if extras else 0])[0]
+        if kind == "conv" and nf:
+            causal = dim == 1 and rng.random() < 0.7
+            nodes.append({"op": "conv", "ins": [pick(nf)], "out": rng.choice([2, 3, 4, 5]),
+                          "k": rng.choice([1, 3]) if dim == 2 else rng.choice([1, 2, 3, 5]),
+                          "d": 1 if dim == 2 else rng.choice([1, 1, 2, 3]), "causal": causal,
+                          "s": rng.choice([1, 1, 1, 2]) if (dim == 2 or causal) else 1, "bias": rng.random() < 0.7,
+                          "bn": rng.random() < 0.35})
+        elif kind == "dw" and nf:
+            causal = dim == 1 and rng.random() < 0.7
+            nodes.append({"op": "conv", "ins": [pick([t for t in nf if t != 0] or nf)], "dw": True,
+                          "k": 3 if dim == 2 else rng.choice([2, 3, 5]), "bias": rng.random() < 0.7, "causal": causal,
+                          "bn": rng.random() < 0.3})
+        elif kind == "lin" and fl:
+            nodes.append({"op": "lin", "ins": [pick(fl)], "out": rng.choice([2, 3, 4, 6]), "bias": rng.random() < 0.7, "bn": rng.random() < 0.3})
+        elif kind == "relu" and len(T) > 1:
+            op = rng.choices(["relu", "tanh", "silu", "drop", "id", "sig"], weights=[8, 1, 1, 1, 1, 1])[0] if extras else "relu"
+            nodes.append({"op": op, "ins": [pick(T[1:])]})
+        elif kind == "pool":
+            c = [t for t in nf if t != 0 and sh[t]["sp"] >= 2]
+            if c:
+                nodes.append({"op": "pool", "ins": [pick(c)], "kind": rng.choice(["avg", "max"])})
+        elif kind == "flat":
+            c = [t for t in nf if t != 0 and sh[t]["ch"] * sh[t]["sp"] * sh[t]["spw"] <= 80]
+            if c:
+                nodes.append({"op": "flat", "ins": [pick(c)]})
+        elif kind == "add":
+            have = {tuple(sorted(nd["ins"])) for nd in nodes if nd["op"] == "add"}
+            pairs = [(p, q) for p in T for q in T if p != q and sh[p] == sh[q] and tuple(sorted((p, q))) not in have
+                     and (rng.random() < 0.15 or not sh[p]["flat"])]      # (flat addends: mostly finding F24)
+            if pairs:
+                nodes.append({"op": "add", "ins": list(rng.choice(pairs))})
+        elif kind == "cat":
+            pairs = [(p, q) for p in nf for q in nf if p != q and sh[p]["sp"] == sh[q]["sp"] and sh[p]["spw"] == sh[q]["spw"]
+                     and sh[p]["ch"] + sh[q]["ch"] <= 10]
+            if pairs:
+                nodes.append({"op": "cat", "ins": list(rng.choice(pairs))})
+    # close: every tensor but the last must be consumed
+    a = norm_arch({"dim": dim, "c0": c0, "sp": sp, "nodes": nodes})
+    for _ in range(12):
+        sh = shapes(a)
+        used = {p for nd in a["nodes"] for p in nd["ins"]}
+        dangling = [t for t in range(len(sh) - 1) if t not in used]
+        if not dangling:
+            break
+        t_ = dangling[0]
+        last = len(sh) - 1
+        have = {tuple(sorted(nd["ins"])) for nd in a["nodes"] if nd["op"] == "add"}
+        if sh[t_] == sh[last] and tuple(sorted((t_, last))) not in have and not sh[t_]["flat"]:
+            a["nodes"].append({"op": "add", "ins": [t_, last] if rng.random() < 0.5 else [last, t_]})
+        elif not sh[t_]["flat"] and not sh[last]["flat"] and sh[t_]["sp"] == sh[last]["sp"] and sh[t_]["spw"] == sh[last]["spw"]:
+            a["nodes"].append({"op": "conv", "ins": [t_], "out": sh[last]["ch"], "k": 1, "causal": dim == 1})
+        elif not sh[t_]["flat"]:
+            a["nodes"].append({"op": "flat", "ins": [t_]})
+        elif sh[t_]["flat"] and sh[last]["flat"]:
+            a["nodes"].append({"op": "lin", "ins": [t_], "out": sh[last]["ch"]})
+        else:
+            a["nodes"].append({"op": "flat", "ins": [last]})
+        a = norm_arch(a)
+    sh = shapes(a)
+    if rng.random() < 0.8 or not any(n["op"] in ("conv", "lin") for n in a["nodes"]):
+        if not sh[-1]["flat"]:
+            if sh[-1]["ch"] * sh[-1]["sp"] * sh[-1]["spw"] > 96 and sh[-1]["sp"] >= 2:
+                a["nodes"].append({"op": "pool", "ins": [len(sh) - 1], "kind": rng.choice(["avg", "max"])})
+                a = norm_arch(a)
+            a["nodes"].append({"op": "flat", "ins": [len(a["nodes"])]})
+            a = norm_arch(a)
+        a["nodes"].append({"op": "lin", "ins": [len(a["nodes"])], "out": rng.choice([2, 3, 5]), "bias": True})
+    a = norm_arch(a)
+    used = {p for nd in a["nodes"] for p in nd["ins"]}
+    if any(t_ not in used for t_ in range(len(a["nodes"]))) or not any(n["op"] in ("conv", "lin") for n in a["nodes"]):
+        return random_pipe_arch(rng, dim, max_nodes, extras)
+    return a
+
+
+def _pc_aim(arch) -> bool:
+    """Aim of the generator only (the domain of the per-channel claims is decided by the trace specification): no searchable
+    layer / add tied to the network input, one width per sharing component, the network ends in a layer."""
+    arch = norm_arch(arch)
+    nodes = arch["nodes"]
+    n = len(nodes)
+    sh = shapes(arch)
+    par = list(range(n + 2))
+
+    def find(x):
+        while par[x] != x:
+            par[x] = par[par[x]]
+            x = par[x]
+        return x
+    for i, nd in enumerate(nodes, start=1):
+        if not (nd["op"] in ("conv", "lin") and not nd["dw"]) and nd["op"] != "cat":
+            for p_ in nd["ins"]:
+                par[find(p_)] = find(i)
+    par[find(n)] = find(n + 1)
+    if nodes[-1]["op"] not in ("conv", "lin"):
+        return False
+    width: Dict[int, int] = {}
+    for i, nd in enumerate(nodes, start=1):
+        if nd["op"] in ("conv", "lin", "add") and find(i) == find(0):
+            return False
+        if nd["op"] in ("conv", "lin") and width.setdefault(find(i), sh[i]["ch"]) != sh[i]["ch"]:
+            return False
+    return True
+
+
 def random_scenario(rng: random.Random, seed: int, max_nodes: int = 8) -> Dict[str, Any]:
     """A seeded random pipeline beyond the exhaustive bounds: wider / deeper networks (1-D with kernels 1..5, dilation,
     stride; 2-D with depthwise / residual blocks / BatchNorm), random masks in one or two PIT rounds, any precision
     tuples, per-layer or per-channel (incl. 0 bit) search, both backends with MATCH options."""
-    from . import mps_gen, pitgen
-    kind = rng.random()
     dim = 2 if rng.random() < 0.6 else 1
-    if kind < 0.2:
-        # the PIT grammar incl. concatenations / sigmoid (the unsupported topologies are known findings)
-        arch = pitgen.random_arch(rng, dim=dim, max_nodes=max_nodes, allow_excl=False, allow_findings=True, reuse=False)
-        arch["nodes"] = [n for n in arch["nodes"]]
-        if any(n["op"] in ("catt", "gsq") for n in arch["nodes"]):
-            arch = mps_gen.random_mps_arch(rng, max_nodes, dim, False)
-    else:
-        arch = mps_gen.random_mps_arch(rng, max_nodes, dim, False)
-    arch = norm_arch(arch)
+    arch = random_pipe_arch(rng, dim, max_nodes, extras=rng.random() < 0.2)
     to_int = dim == 2 and rng.random() < 0.75
     if to_int and rng.random() < 0.75:
         for n in arch["nodes"]:             # the integer backends crash on bias-free layers (F12): most pipelines avoid them
             if n["op"] in ("conv", "lin"):
                 n["bias"] = True
-    if dim == 1:
-        for n in arch["nodes"]:
-            if n["op"] == "conv" and not n["causal"]:
-                n["s"] = 1
-    for n in arch["nodes"]:
-        if n["op"] == "pool" and "kind" not in n:
-            n["kind"] = rng.choice(["avg", "max"])
     sc: Dict[str, Any] = {"arch": arch, "seed": seed, "fold": rng.random() < 0.3, "r1": {"random": rng.choice([0.25, 0.4, 0.6])},
                           "r2": {"random": rng.choice([0.2, 0.4])} if rng.random() < 0.3 else None, "mps": None, "int": None, "src": "random"}
     if rng.random() < 0.9:
-        pc = rng.random() < 0.25 and mps_gen.pc_ok(arch)     # (only to aim the generator; the domain is decided by the trace spec)
+        pc = rng.random() < 0.25 and _pc_aim(arch)
         if pc:
             cfg = {"pin": rng.choice(ALL15), "pa": rng.choice(ALL15), "pw": rng.choice([[0, 2, 8], [4, 0], [0, 8, 4, 2], [2, 0, 4]]), "wt": "pc"}
         else:
@@ -1229,7 +1426,7 @@ def corrupt(tr, rng: random.Random):
         choices += ["nascost", "sum_in"]
     if "mps" in by and by["mps"][0]["ok"]:
         choices += ["mpscost", "su_i"]
-    if "mpsx" in by and by["mpsx"][0]["ok"]:
+    if "mpsx" in by and by["mpsx"][0]["ok"] and tr["plan"]["wt"] == "pl":     # (per-channel export: nothing is claimed)
         choices += ["bit", "ex_w"]
     if "int" in by and by["int"][0]["stage"] == "done":
         choices += ["intbits", "level", "final"]
